@@ -109,6 +109,11 @@ def _menu():
             m["n_walkers"] = r.choice([4, 6, 8])
             nb = [b for b in (1, 2, m["n_walkers"]) ]
             m["n_batch_pair"] = r.choice([[1, 2], [1, m["n_walkers"]], [2, m["n_walkers"]]])
+        if m["kind"] != "batch":
+            nb0 = m.get("n_batch")
+            lab.corner_override(m, k, 12, empty_ok=False)  # AD entry points: jax's det derivative fails on 0 x 0 blocks
+            if m.get("corner") != "one_or_two_walkers" and nb0 is not None:
+                m["n_batch"] = nb0
         out.append(m)
     return out
 
@@ -129,7 +134,7 @@ def gen_cfg(seed, index, tier):
     m["ham_seed"] = rng.randrange(1, 2**31 - 1)
     m["strength"] = rng.choice([0.2, 0.35, 0.5])
     m["mix"] = 0.0
-    m["spin_dep"] = m["wt"] == "unrestricted" and rng.random() < 0.5
+    m["spin_dep"] = m["wt"] == "unrestricted" and rng.random() < 0.5 and m.get("trial") != "rhf"
     m["jax_seed"] = rng.randrange(1, 2**20)
     m["sched_a"] = {"policy": rng.choice(["random", "sticky", "straggler", "reverse"]), "straggler": rng.randrange(3), "p_rendezvous": rng.choice([0.0, 0.5, 1.0]), "p_clock_jump": rng.choice([0.0, 0.2])}
     m["sched_b"] = {"policy": rng.choice(["random", "sticky", "straggler", "reverse"]), "straggler": rng.randrange(3), "p_rendezvous": rng.choice([0.0, 0.5, 1.0]), "p_clock_jump": rng.choice([0.0, 0.2])}
